@@ -641,6 +641,171 @@ mod imp {
                     Ok("ok".into())
                 }),
             ));
+            // every expression-valued attribute of a delayed <send> is evaluated when the <send> executes: the data
+            // they read is changed right afterwards
+            v.push(mk(
+                "expression-attributes-at-send-time",
+                1,
+                2,
+                format!(
+                    r##"<scxml {ns} name="t6"><datamodel><data id="tgt" expr="'#_scxml_' + _sessionid"/><data id="ev" expr="'q1'"/><data id="dl" expr="'10ms'"/>
+<data id="ty" expr="'http://www.w3.org/TR/scxml/#SCXMLEventProcessor'"/><data id="c" expr="'body1'"/><data id="nv" expr="1"/></datamodel>
+<state id="a"><onentry>
+ <send eventexpr="ev" delayexpr="dl" targetexpr="tgt" typeexpr="ty" namelist="nv"/>
+ <send event="q2" delay="20ms"><content expr="c"/></send>
+ <assign location="tgt" expr="'#_scxml_99999'"/><assign location="ev" expr="'zz'"/><assign location="dl" expr="'50ms'"/>
+ <assign location="ty" expr="'nonsense'"/><assign location="c" expr="'body2'"/><assign location="nv" expr="2"/>
+</onentry>
+<transition event="q1"><script>mark('data', 'q1', _event.data.nv); notify('q1')</script></transition>
+<transition event="q2"><script>mark('data', 'q2', _event.data); notify('q2')</script></transition>
+<transition event="*"><script>mark('other', _event.name); notify(_event.name)</script></transition></state></scxml>"##,
+                    ns = NS
+                ),
+                vec![],
+                vec!["q1", "q2"],
+                Box::new(|o: &Obs| {
+                    // an event that never arrives leaves the harness waiting: reported as stuck
+                    basic_outcome(o).map_err(|(s, m)| (if s == "stuck" { "lost-or-misrouted".to_string() } else { s }, m))?;
+                    let m: Vec<Vec<String>> = o
+                        .recs
+                        .iter()
+                        .filter_map(|(_, r)| match r {
+                            Rec::Mark { args, .. } if args.first().map(|a| a == "data" || a == "other").unwrap_or(false) => Some(args.clone()),
+                            _ => None,
+                        })
+                        .collect();
+                    let exp = vec![
+                        vec!["data".to_string(), "q1".to_string(), "1".to_string()],
+                        vec!["data".to_string(), "q2".to_string(), "body1".to_string()],
+                    ];
+                    if m != exp {
+                        return Err(("arguments-late".into(), format!("delayed events carry {:?}; with the values at send time: {:?}", m, exp)));
+                    }
+                    let mut k = 0;
+                    for st in &o.result.steps {
+                        if let Some(rest) = st.op.strip_prefix("timer-item ") {
+                            let due: i64 = rest.split("due=").nth(1).and_then(|x| x.parse().ok()).unwrap_or(-1);
+                            let want = [10i64, 20][k.min(1)];
+                            if due - st.now != want {
+                                return Err(("wrong-delay".into(), format!("<send> #{} was scheduled with a delay of {} ms instead of {} ms (delayexpr value at send time)", k, due - st.now, want)));
+                            }
+                            k += 1;
+                        }
+                    }
+                    Ok("ok".into())
+                }),
+            ));
+            // <cancel> affects no other session: two sessions of the same document use the same send id, one cancels
+            v.push(Scenario {
+                name: "cancel-does-not-cross-sessions",
+                quick_bound: 0,
+                thorough_bound: 1,
+                atomics: false,
+                body: Box::new(move |log, notes| {
+                    Box::new(move || {
+                        let ex = FsmExecutor::new_without_io_processor();
+                        let (tx, rx) = verif_sync::mpsc::channel::<String>();
+                        let doc = format!(
+                            r##"<scxml {ns} name="t7"><state id="a"><onentry><send id="x" event="c" delay="10ms"/></onentry>
+<transition event="stop"><cancel sendid="x"/><script>mark('cancelled', _sessionid)</script></transition>
+<transition event="c"><script>mark('got-c', _sessionid); notify('c' + _sessionid)</script></transition></state></scxml>"##,
+                            ns = NS
+                        );
+                        let a = start_n(&ex, &doc, &log, &tx);
+                        let b = start_n(&ex, &doc, &log, &tx);
+                        notes.lock().unwrap().push(format!("a={} b={}", a.session_id, b.session_id));
+                        let _ = a.sender.send(Box::new(Event::new_simple("stop")));
+                        let want = format!("c{}", b.session_id);
+                        wait_for(&rx, &[want.as_str()]);
+                        cancel_and_join(a);
+                        cancel_and_join(b);
+                    })
+                }),
+                oracle: Box::new(|o: &Obs| {
+                    basic_outcome(o).map_err(|(s, m)| (if s == "stuck" { "other-session-affected".to_string() } else { s }, m))?;
+                    let note = o.notes.first().cloned().unwrap_or_default();
+                    let b: String = note.split(' ').nth(1).unwrap_or("").trim_start_matches("b=").to_string();
+                    let got: Vec<String> = o
+                        .recs
+                        .iter()
+                        .filter_map(|(_, r)| match r {
+                            Rec::Mark { args, .. } if args.first().map(|x| x == "got-c").unwrap_or(false) => Some(args[1].clone()),
+                            _ => None,
+                        })
+                        .collect();
+                    let nb = got.iter().filter(|x| **x == b).count();
+                    if nb != 1 {
+                        return Err(("other-session-affected".into(), format!("session {} never cancelled its send x, yet processed its event c {} times (sessions that processed c: {:?})", b, nb, got)));
+                    }
+                    if got.len() > 2 {
+                        return Err(("delivered-twice".into(), format!("{:?}", got)));
+                    }
+                    Ok(format!("deliveries={}", got.len()))
+                }),
+            });
+            // a delayed send to ANOTHER session is cancelled by its sender before the due time
+            v.push(Scenario {
+                name: "cancel-send-to-sibling",
+                quick_bound: 1,
+                thorough_bound: 2,
+                atomics: false,
+                body: Box::new(move |log, _notes| {
+                    Box::new(move || {
+                        let ex = FsmExecutor::new_without_io_processor();
+                        let (tx, rx) = verif_sync::mpsc::channel::<String>();
+                        let target = start_n(&ex, &format!(r##"<scxml {ns} name="tgt"><state id="a"><transition event="*"><script>mark('tgt-got', _event.name); notify('t-' + _event.name)</script></transition></state></scxml>"##, ns = NS), &log, &tx);
+                        let tid = target.session_id;
+                        let doc = format!(
+                            r##"<scxml {ns} name="t8"><state id="a"><onentry><send id="x" event="c" delay="10ms" target="#_scxml_{tid}"/><send id="y" event="d" delay="20ms" target="#_scxml_{tid}"/></onentry>
+<transition event="stop"><cancel sendid="x"/><script>mark('cancelled')</script></transition></state></scxml>"##,
+                            ns = NS,
+                            tid = tid
+                        );
+                        let sess = start_n(&ex, &doc, &log, &tx);
+                        let _ = sess.sender.send(Box::new(Event::new_simple("stop")));
+                        wait_for(&rx, &["t-d"]);
+                        cancel_and_join(sess);
+                        cancel_and_join(target);
+                    })
+                }),
+                oracle: Box::new(|o: &Obs| {
+                    basic_outcome(o).map_err(|(s, m)| (if s == "stuck" { "other-id-affected".to_string() } else { s }, m))?;
+                    let got: Vec<String> = o
+                        .recs
+                        .iter()
+                        .filter_map(|(_, r)| match r {
+                            Rec::Mark { args, .. } if args.first().map(|x| x == "tgt-got").unwrap_or(false) => Some(args[1].clone()),
+                            _ => None,
+                        })
+                        .collect();
+                    let nc = got.iter().filter(|n| *n == "c").count();
+                    let nd = got.iter().filter(|n| *n == "d").count();
+                    if nd != 1 {
+                        return Err(("other-id-affected".into(), format!("event d (id y, never cancelled) delivered {} times: {:?}", nd, got)));
+                    }
+                    let steps: Vec<&String> = o.result.steps.iter().map(|s| &s.op).collect();
+                    let first_item_pop = steps.iter().position(|s| s.starts_with("timer-pop"));
+                    let cancel = steps.iter().position(|s| s.starts_with("timer-cancel"));
+                    let cancelled_first = match (cancel, first_item_pop) {
+                        (Some(c), Some(pp)) => c < pp,
+                        (Some(_), None) => true,
+                        _ => false,
+                    };
+                    if cancelled_first && nc != 0 {
+                        return Err(("delivered-after-cancel".into(), format!("<cancel> ran before the timer took the event, yet c was delivered: {:?}", got)));
+                    }
+                    if nc > 1 {
+                        return Err(("delivered-twice".into(), format!("{:?}", got)));
+                    }
+                    if !cancelled_first && nc != 1 {
+                        return Err(("lost".into(), format!("the timer took event c before <cancel> ran, yet c was not delivered: {:?}", got)));
+                    }
+                    if got.iter().position(|n| n == "c").unwrap_or(0) > got.iter().position(|n| n == "d").unwrap_or(usize::MAX) {
+                        return Err(("due-order".into(), format!("{:?}", got)));
+                    }
+                    Ok(format!("c={} cancelled_first={}", nc, cancelled_first))
+                }),
+            });
             // the session is cancelled while its delayed send is due
             v.push(Scenario {
                 name: "session-ends-with-pending-send",
@@ -1531,9 +1696,13 @@ mod imp {
         }
         for bound in 0..=max_bound {
             let mut execs_this_bound = 0u64;
+            if ABANDONED_THREADS.load(std::sync::atomic::Ordering::Relaxed) > 1500 {
+                break;
+            }
             let mut on_exec = |prefix: &[String], r: &ExecResult| -> bool {
                 // the root execution is run by every worker; count it once
-                let counted = !(prefix.is_empty() && slice.0 != 0);
+                let _ = (prefix, slice);
+                let counted = !r.duplicate;
                 let o = Obs {
                     result: r.clone(),
                     recs: log_slot.lock().unwrap().snapshot(),
@@ -1542,6 +1711,7 @@ mod imp {
                 if counted {
                     execs_this_bound += 1;
                     out.add("executions", 1);
+                    out.add(&format!("executions_{}_b{}", sc.name.replace('-', "_"), bound), 1);
                     out.add("scheduler_steps", r.steps.len() as u64);
                     out.add("choice_points", r.choices.len() as u64);
                 }
@@ -1574,7 +1744,12 @@ mod imp {
                                 json!({"engine":"e4","scenario": sc.name, "bound": bound, "schedule": sched_names, "last_steps": tail}),
                             );
                         }
-                        // a deadlocked or stuck execution leaves parked threads behind: keep going, they are inert
+                        // a deadlocked or stuck execution leaves parked threads behind: they are inert, but the
+                        // process must not run out of threads - stop this scenario when too many piled up
+                        if ABANDONED_THREADS.load(std::sync::atomic::Ordering::Relaxed) > 1500 {
+                            out.flag("scenario_cut_short_after_many_unfinished_executions", true);
+                            return false;
+                        }
                         true
                     }
                 }
@@ -1732,7 +1907,7 @@ mod imp {
             states_key: "executions",
             transitions_key: "scheduler_steps",
             validated_key: "executions",
-            cap_flags: vec!["execution_cap_hit", "machinery_divergence"],
+            cap_flags: vec!["execution_cap_hit", "machinery_divergence", "scenario_cut_short_after_many_unfinished_executions"],
             extra: Map::new(),
         };
         std::process::exit(conclude(&ctx, &agg, spec));
